@@ -114,6 +114,30 @@ def run(rep, build, tier, seed):
                 if nplans in (3, 40):
                     rep.sample({"scenario": name, "plan": pl, "impl_exit": I["rc"], "model_exit": M["exit"],
                                 "trace_tail": I["trace"][-4:]})
+        # ---- the correspondence broke and no run violated the statement yet: the binary performs operations the model does not
+        # know; look for a failing plan around them (a second fault or a kill at every operation behind the first fault)
+        if corr and not rep.violations:
+            scn_by_name = {n: (sc, ff) for n, sc, ff in scenarios(tier, wd)}
+            tried = 0
+            for name, pl, diffs in corr[:6]:
+                if name not in scn_by_name or len(pl) != 1 or rep.violations:
+                    continue
+                scn, f = scn_by_name[name]
+                I1 = fsrun.run_impl(base, scn, pl)
+                k0 = pl[0][0]
+                for k in range(k0 + 1, len(I1["trace"]) + 2):
+                    for act in ("fail", "crash"):
+                        pl2 = [pl[0], (k, act)]
+                        I2 = fsrun.run_impl(base, scn, pl2)
+                        tried += 1
+                        for b in oracle(scn, f, I2):
+                            rep.finding("%s|%s|%s" % (name, pl2, b[:40]), "%s with plan %s (found by the search behind a broken correspondence): %s" % (name, pl2, b),
+                                        fc.replay_dict(scn, f, pl2, I2))
+                        if rep.violations:
+                            break
+                    if rep.violations:
+                        break
+            rep.cov["search_after_broken_correspondence"] = tried
     m.close()
     rep.cov["scenarios"] = len(scenarios(tier, common.WORK))
     if corr and not rep.violations:
